@@ -69,18 +69,27 @@ def _build(rnd, big, with_seq, on_chunk):
         kind = rnd.choice(["gene", "gene", "feature", "variant"])
         if kind == "gene":
             txs = []
-            for t in range(rnd.randrange(1, 3)):
-                if e - s >= 8 and rnd.random() < 0.5:
-                    cut = rnd.randrange(s + 2, e - 3)
-                    blocks = [[s if t == 0 else s + 1, cut], [cut + 1, e]]
+            ntx = rnd.randrange(1, 3)
+            flagged = rnd.randrange(0, ntx) if (ntx > 1 and rnd.random() < 0.4) else None  # explicit primary isoform
+            far = big and ntx > 1 and rnd.random() < 0.4  # isoforms more than one 128 kb bin apart (a wide gap inside the gene)
+            for t in range(ntx):
+                ts, te = (s if t == 0 else s + 1), e
+                if far and t == 1:
+                    ts = e + rnd.choice([BIN, 2 * BIN, 3 * BIN]) + rnd.randrange(0, 2000)
+                    te = ts + rnd.choice([9, 300, 1000])
+                    if te > L:
+                        ts, te = s + 1, e
+                if te - ts >= 8 and rnd.random() < 0.5:
+                    cut = rnd.randrange(ts + 2, te - 3)
+                    blocks = [[ts, cut], [cut + 1, te]]
                 else:
-                    blocks = [[s if t == 0 else s + 1, e]]
+                    blocks = [[ts, te]]
                 n_tx = sum(b[1] - b[0] for b in blocks)
                 coding = rnd.random() < 0.5 and n_tx >= 3
-                cds = cds_blocks(blocks, "+", 0, 3 * (n_tx // 3)) if coding else None
                 st = rnd.choice("+-")
                 cds = cds_blocks(blocks, st, 0, 3 * (n_tx // 3)) if coding else None
-                txs.append(mk_tx(blocks, st, cds, None, parent=parent, transcript_id="tx%d_%d" % (k, t)))
+                kw = {"is_primary_tx": True} if flagged == t else {}
+                txs.append(mk_tx(blocks, st, cds, None, parent=parent, transcript_id="tx%d_%d" % (k, t), **kw))
             genes.append(GeneInterval(txs, gene_id="gid%d" % k, gene_symbol="sym%d" % (k % 3), locus_tag="lt%d" % k,
                                       parent_or_seq_chunk_parent=parent))
         elif kind == "feature":
@@ -136,8 +145,10 @@ def _events(args):
             allm = list(cur.iter_children())
             if r < 0.6:
                 if big:
+                    kids = [c for m in allm for c in m.iter_children()]
                     anchor = rnd.choice([cur.start, cur.end] + [m.start for m in allm] + [m.end for m in allm] +
-                                        [k * BIN for k in range(1, 8)])
+                                        [k * BIN for k in range(1, 8)] + [c.start for c in kids] + [c.end for c in kids] +
+                                        [(m.start + m.end) // 2 for m in allm])
                     if rnd.random() < 0.5:
                         qs = max(0, anchor + rnd.choice([-BIN, -50, -3, -1, 0, 1, 3]))
                         qe = qs + rnd.choice([1, 2, 10, 100, BIN - 1, BIN, BIN + 1, 2 * BIN])
